@@ -611,7 +611,7 @@ def check_copy(kind, x, c):
             fields = set(type(x).get_all_fields_by_name().keys())
             if lost and all(k not in fields for k in lost):
                 key = "pickle/extra-attrs-lost"
-            elif public_state(x)[1] == public_state(y)[1] and sx[3] and sy[3] is None:
+            elif public_state(x)[1] == public_state(y)[1] and sx[3] and not sy[3]:
                 key = "pickle/lost-internal-state/none-fields-unequal"
         fails.append((key, "%s(x) == x is %r, x == %s(x) is %r: %s -> %s" % (kind, e1, kind, e2, x, y), {}))
     elif hash(y) != hash(x):
